@@ -184,7 +184,7 @@ func (x *Exec) callOrdinal(instr ssa.CallInstruction, pat string) int {
 }
 
 // callAsserts emits the `call N of callee: assert E` obligations that bind to this call.
-func (x *Exec) callAsserts(fr *frame, st *State, instr ssa.CallInstruction, c *ssa.CallCommon, after bool, results []smt.T) {
+func (x *Exec) callAsserts(fr *frame, st *State, instr ssa.CallInstruction, c *ssa.CallCommon, after bool, results []smt.T, args []smt.T) {
 	if x.contract == nil || instr == nil || len(x.contract.CallAsserts) == 0 {
 		return
 	}
@@ -201,7 +201,19 @@ func (x *Exec) callAsserts(fr *frame, st *State, instr ssa.CallInstruction, c *s
 		for root.parent != nil {
 			root = root.parent
 		}
-		t, err := x.evalClauseExtra(ca.Cl.E, st, x.entry, fr, nil, results)
+		extra := map[string]smt.T{}
+		for k, r := range results {
+			extra[fmt.Sprintf("c%d", k)] = r
+		}
+		as := args
+		if c.IsInvoke() && len(as) > 0 {
+			extra["recv"] = as[0]
+			as = as[1:]
+		}
+		for k, a := range as {
+			extra[fmt.Sprintf("arg%d", k)] = a
+		}
+		t, err := x.evalClauseExtra(ca.Cl.E, st, x.entry, fr, nil, extra)
 		if err != nil {
 			x.fatal("call clause %q: %v", ca.Cl.Src, err)
 			continue
@@ -227,12 +239,12 @@ func (x *Exec) doCall(fr *frame, st *State, instr ssa.CallInstruction, c *ssa.Ca
 			args = append(args, x.argVal(fr, st, a))
 		}
 	}
-	x.callAsserts(fr, st, instr, c, false, nil)
+	x.callAsserts(fr, st, instr, c, false, nil, args)
 	outs := x.doCall1(fr, st, instr, c, args, depth)
 	if x.contract != nil && len(x.contract.CallAsserts) > 0 {
 		for _, o := range outs {
 			if !o.panicked {
-				x.callAsserts(fr, o.st, instr, c, true, o.results)
+				x.callAsserts(fr, o.st, instr, c, true, o.results, args)
 			}
 		}
 	}
